@@ -253,7 +253,10 @@ def inventory(F):
             if why:
                 break
         s["taint"] = why or s.get("container")
-        s["guarded"] = bool(why) and s["kind"] in ("K2", "K3") and (len_guarded(f, s["bb"], s.get("idx")) or boundary_guarded(f, s["bb"], s.get("idx")))
+        # a byte offset into text has to be a character boundary as well as in range: for the str / String routines only the boundary test counts
+        # (is_char_boundary is false beyond the length too); a comparison with the length alone leaves `"café".insert(x, 4)` panicking
+        text_api = s["kind"] == "K3" and re.match(r"^(str|String)::", s.get("what", ""))
+        s["guarded"] = bool(why) and s["kind"] in ("K2", "K3") and ((not text_api and len_guarded(f, s["bb"], s.get("idx"))) or boundary_guarded(f, s["bb"], s.get("idx")))
         if why and s["kind"] == "K1" and below_len_plus_constant(f, s):
             s["guarded"] = True
         out.append(s)
